@@ -14,7 +14,8 @@ def x_cfg(scn, views, memhost, branch, bigcounts=(64, 300)):
             % (scn, ", ".join('"%s"' % v for v in views), memhost, branch, ", ".join(map(str, bigcounts))))
 
 def raw_cmd(vec, place, off):
-    return "Y %s %d %d %d %s %d %s %d %s" % (vec["op"], vec["q"], vec["off"], vec["w"], hexs(vec["val"]), vec["base"], place, off, hexs(vec["pre"]))
+    return "Y %s %d %d %d %s %d %s %d %s" % (vec["op"], vec["q"], vec["off"], vec["w"], hexs(vec["val"]) + (hexs(vec["val2"]) if vec["op"] == "gsg" else ""),
+                                            vec["base"], place, off, hexs(vec["pre"]))
 
 def raw_replay(v, ex, vectors, rnd, tag, places=None):
     cmds, meta = [], []
@@ -30,6 +31,12 @@ def raw_replay(v, ex, vectors, rnd, tag, places=None):
         if status == "skipped": continue
         if status != "ok":
             v.violation(key + " kind=fault", "raw descriptor (q=%d, off=%d, bits=%d) %s: %s" % (vec["q"], vec["off"], vec["w"], vec["op"], status), {"vector": vec}); bad += 1; continue
+        if vec["op"] == "gsg":
+            got = [(t[7][3:] if len(t) > 7 else "?"), t[4], ret]; want = [hexs(vec["r0"]), hexs(vec["r1"]), hexs(vec["ret"])]
+            if got != want:
+                v.violation(key + " kind=stale-read", "raw descriptor (q=%d, off=%d, bits=%d): get, set %s, get, set %s, get inside one caller function on %s returned %s, specification says %s "
+                            "(a read returns what the bytes hold when it is made)" % (vec["q"], vec["off"], vec["w"], hexs(vec["val"]), hexs(vec["val2"]), hexs(vec["pre"]), got, want),
+                            {"vector": vec, "observed": line}); bad += 1; continue
         if post != hexs(vec["post"]) or (vec["op"] == "get" and ret != hexs(vec["ret"])) or canary != "0":
             v.violation(key + " kind=bytes", "raw descriptor (q=%d, off=%d, bits=%d) %s value %s on %s: got bytes %s ret %s, specification bytes %s ret %s" % (
                 vec["q"], vec["off"], vec["w"], vec["op"], hexs(vec["val"]), hexs(vec["pre"]), post, ret, hexs(vec["post"]), hexs(vec["ret"])), {"vector": vec, "observed": line}); bad += 1
